@@ -166,7 +166,7 @@ def rank_program(ds, torch, S, seed, rank, world, with_twin):
     from ..distlib import collect_placement, live_buffer_geometry
 
     placement = collect_placement(opt, params)
-    hist["buffers"] = live_buffer_geometry(opt)
+    hist["buffers"] = live_buffer_geometry(opt, params)
     hist["placement"] = placement
     return hist
 
